@@ -39,6 +39,11 @@ WITNESS = {
     # building its page map and reading the page data (hook sync.pagemap), the application's write restarts the WAL meanwhile
     "M1": [["LsOpen", "new"], ["AppWrite", 1], ["LsSyncAndWait"], ["LsClose"], ["AppCheckpoint", "TRUNCATE"], ["AppWrite", 2], ["AppCheckpoint", "FULL"],
            ["LsOpen", "same"], ["CkStart", "SYNC"], ["AppWrite", 3], ["CkStep"], ["LsSyncAndWait"], ["AppWrite", 4], ["LsSyncAndWait"], ["LsClose"]],
+    # M2: the same set-up, the sync parked right after verify() (hook sync.verified); the new generation grows past the old cursor, so the
+    # reader's previous-frame check fails and sync() falls back to reading from the header
+    "M2": [["LsOpen", "new"], ["AppWrite", 1], ["LsSyncAndWait"], ["AppWrite", 2], ["AppWrite", 3], ["LsSyncAndWait"], ["LsClose"], ["AppWrite", 4],
+           ["AppCheckpoint", "FULL"], ["LsOpen", "same"], ["CkStart", "SYNC0"]] + [["AppWrite", 5 + k % 2] for k in range(9)] +
+          [["CkStep"], ["LsSyncAndWait"], ["AppWrite", 6], ["LsSyncAndWait"], ["LsClose"]],
     "F3": [["LsOpen", "new"]] + [["AppGrow", 1], ["LsSyncAndWait"]] * 5 + [["LsReset"], ["AppWrite", 3], ["LsSyncAndWait"]],
 }
 
@@ -52,7 +57,7 @@ PLANS = {
         dump=("Dump_Core.cfg", 250, 2500),
         random=dict(n=80, n_thorough=800, length=28, with_down=False, with_state_loss=False),
         invariants=["C01_RestoreEqualsSource", "C01_RestoreIntegrity", "N_ReadLockWhileOpen"],
-        witnesses=["F1", "F2", "F3", "G1", "S1", "Q1", "Q2", "S3", "M1"],
+        witnesses=["F1", "F2", "F3", "G1", "S1", "Q1", "Q2", "S3", "M1", "M2"],
         nontrivial="distinct schedule with at least one acknowledgement after application writes (restore compared with the source)",
     ),
     "C04": dict(
@@ -77,7 +82,7 @@ PLANS = {
         dump=None,
         random=dict(n=120, n_thorough=800, length=30, with_down=False, with_state_loss=False, tx_heavy=True),
         invariants=["C02_EveryTxidIsACommittedState", "C02_Level0Gapless"],
-        witnesses=["M1", "S3", "S2"],
+        witnesses=["M1", "M2", "S3", "S2"],
         audit=True, chunked=True,
         nontrivial="distinct schedule whose replica lists at least 3 TXIDs, each restored and compared with the ledger of committed states",
     ),
